@@ -1,13 +1,13 @@
-\* generation (thorough): every history of 5 (2 values) edit/build steps over 2 headers that ends in a build
+\* generation (thorough): every history of up to 4 edit/build steps over 2 headers with 3 values that ends in a build
 SPECIFICATION Spec
 CONSTANTS
   HSeq <- H2
   Root <- RootBoth
-  Vals <- V2
+  Vals <- V3
   InitVal <- Init2
   MaxEdits = 9
   MaxBuilds = 9
   Variant = "chained"
   Fuel = 50
-  MaxHist = 5
+  MaxHist = 4
 CONSTRAINT Emit
